@@ -1,5 +1,6 @@
 import Originium.Generated.LockTable
 import Originium.Model.SchedProofs
+import Originium.Model.DBTie
 /-! # C12 — one DB handle is safe for concurrent use, including its own background work
 
 What a model can carry (the rest of the property is a runtime fact, see DESIGN.md):
@@ -55,8 +56,22 @@ theorem C12_no_deadlock (cap nc nr : Nat) (s : Sched.St) (hr : Sched.Reach cap n
     ∃ st s', Sched.step s st = some s' :=
   Sched.not_stuck (Sched.inv_reach hr) hu
 
+/-- the Go code itself (`DB.rawset` and the flush case of `DB.run`, translated from /repo on every run): what a concurrent reader
+    of the handle can observe of a rotation and of a finished flush.  A reader holds `db.mu` (read) for the whole of
+    `DB.search`; the rotation appends the frozen memtable to the immutables and installs the fresh memtable between ONE
+    `db.mu.Lock` and its `Unlock` — a reader sees the batch in the active memtable before, in the immutables after, never in
+    neither — and the flusher removes the flushed memtable from the immutables, again under `db.mu`, only after
+    `flushImmutable` has made its table searchable -/
+theorem C12_code_publication_under_dbmu (size threshold : Nat) (h : threshold ≤ size) (closed : Bool) (queued : Nat) :
+    GenDB.rawset size threshold [] =
+      ["memtable.set batch", "memtable.freeze", "db.mu.Lock", "immutables.PushBack", "memtable = reset", "db.mu.Unlock", "flushC <- imt"] ∧
+    (GenDB.runFlush closed queued []).2.2 =
+      ["flushImmutable", "checkAndCompact", "db.mu.Lock", "immutables.Remove Front", "db.mu.Unlock"] := by
+  refine ⟨by rw [DBTie.rawset_table, if_pos h], by rw [DBTie.runFlush_table]⟩
+
 #print axioms C12_lock_discipline
 #print axioms C12_no_unprotected_conflict
 #print axioms C12_table_nontrivial
 #print axioms C12_no_deadlock
+#print axioms C12_code_publication_under_dbmu
 end Props
